@@ -18,7 +18,7 @@
    BatchStart events, which is what the harness compares with the real code. *)
 From Coq Require Import List Arith NArith Bool.
 Import ListNotations.
-Require Import Aiuti.Case_Batcher Aiuti.Case_Batcher_Sound Aiuti.Case_Batcher_Basic Aiuti.Batcher Aiuti.BatcherLimits Aiuti.BatcherTime Aiuti.BatcherOrder.
+Require Import Aiuti.Case_Batcher Aiuti.Case_Batcher_Sound Aiuti.Case_Batcher_Basic Aiuti.BatcherSim Aiuti.Case_Batcher_C10 Aiuti.Batcher Aiuti.BatcherLimits Aiuti.BatcherTime Aiuti.BatcherOrder.
 
 (* Every batch handed to the batch function is non-empty and no larger than
    lim = the largest max_batch_size that was in force when one of its items
@@ -183,6 +183,23 @@ Theorem monitor_basic_sound :
     forall b items t, In (BatchStart b items t) os -> 1 <= length items /\ NoDup (map fst items).
 Proof. exact ok_basic_sound. Qed.
 Print Assumptions monitor_basic_sound.
+
+(* COMPLETENESS of the FULL monitor ok_C10 — every conjunct: FIFO against the queue of
+   expected requests, 1 <= n <= lim, split only when the previous batch was full or timed
+   out, inside a batch < batch_timeout apart and not full, start tick = spawn tick or (slot
+   freed by this step's event while all slots were busy), at most max_concurrent_batches
+   live, no start in the future, open requests still inside their timeout at the end — on
+   event lists without Chain events and for batch_timeout > 0: the monitor accepts the
+   canonical trace of the model, for every configuration and every such event list.  The
+   model-side facts are exactly the theorems above (LInv, Fifo, TInv, OInv) plus WB
+   (BatcherWithin.v); the proof (Case_Batcher_C10.v) extends the simulation of
+   Case_Batcher_C11.v.  PARTIAL only in that Chain events are excluded. *)
+Theorem monitor_complete_nochain :
+  forall c evs w, cfg_ok c -> (0 < c_bt c)%N -> Forall ev_ok evs ->
+  forallb (fun e => negb (is_chain e)) evs = true ->
+  ok_C10 (BCase c evs (map canon (fst (run c evs))) w) = true.
+Proof. exact ok_C10_complete. Qed.
+Print Assumptions monitor_complete_nochain.
 
 (* Soundness of the full monitor, PARTIAL.  ok_C10 (Case_Batcher.v) judges the observed trace
    independently of the model.  Proved: acceptance implies every observed batch is
